@@ -385,8 +385,8 @@ class spec_class:
         # existing `owner` attribute.
         respecified_inherited = []
         for attr, attr_spec in metadata.attrs.items():
-            if attr in attr_types:
-                continue
+            if attr in managed_attrs:
+                continue  # (re-)declared by this class: specified anew below
             if self.do_not_copy is MISSING:
                 # Not specified for this class: inherit from the parent class.
                 do_not_copy = attr_spec.do_not_copy
